@@ -13,6 +13,7 @@ CONSTANTS
   MaxRejects = 0
   Policies = {"ALL"}
   UseCheckpoint = FALSE
+  Batch = 1
   IgnoreTaints = FALSE
 INVARIANTS Inv_CommittedSurvives Inv_NoDivergence Inv_Nacked Inv_Struct
 PROPERTIES AcksOK HWMono
